@@ -36,9 +36,15 @@ VARIANTS = [
     dict(dtype='float32', method='eigen', prediv=False, factor_dtype='float64'),
     dict(dtype='bfloat16', method='eigen', prediv=True, factor_dtype='float32'),
     dict(dtype='float64', method='eigen', prediv=True, inv_dtype='float64'),
+    # half-precision factors with many rows of large (finite) activations: the
+    # mean second moment is representable, the un-normalised sum is not
+    dict(dtype='float32', method='eigen', prediv=True, factor_dtype='float16',
+         batch=256, scale=20.0),
+    dict(dtype='float32', method='inverse', prediv=False,
+         factor_dtype='float16', batch=300, scale=16.0),
 ]
 DT = {'float32': torch.float32, 'float64': torch.float64,
-      'bfloat16': torch.bfloat16, None: None}
+      'bfloat16': torch.bfloat16, 'float16': torch.float16, None: None}
 
 
 def snap(model: torch.nn.Module) -> dict[str, Any]:
@@ -74,7 +80,11 @@ def check(arg: tuple[dict[str, Any], dict[str, Any], int]) -> str | None:
     batch = (4, 1, 3, 1)[seed % 4] if not has_bn else (4, 2, 3, 2)[seed % 4]
     conv_out = (2, 2, 1, 1)[(seed // 2) % 4]
     model, insts = trees.build(d['leaves'], seed, dtype, conv_out)
+    if var.get('batch'):
+        batch = var['batch']
     inp = trees.inputs(seed, dtype, batch)
+    if var.get('scale'):
+        inp = {k: t * var['scale'] for k, t in inp.items()}
     skip = [trees.regex(p) for p in d['pats']]
 
     def fb(train: bool) -> tuple[torch.Tensor, dict]:
